@@ -407,6 +407,7 @@ func clientObjects(kind string, fine bool) func() {
 		vrt.Observe("%s how=%d ids=%v", kind, how, ids)
 	}
 }
+
 // serviceTerminate: the whole service is terminated by its host: the hook of
 // every live object runs exactly once (and not again for an object removed
 // before), nothing is invoked afterwards unless it is answered.
@@ -445,6 +446,7 @@ func serviceTerminate() {
 	fx.Settle()
 	vrt.Observe("hooks=%d,%d,%d", a.impl.Terminated, b.impl.Terminated, x.w.Root.Terminated)
 }
+
 // clientHistories: every sequence of <= n operations {add, remove(k)} on a
 // client-side service reference, against a model: identifiers unique among
 // live objects, each live object reaches its own implementation, each removed
@@ -534,6 +536,7 @@ func clientHistories(n int) func() {
 		vrt.Observe("%s", log)
 	}
 }
+
 // secondLife: the same Actor is added to the service again after its first
 // life ended (removal or remote terminate), or after a first activation that
 // failed: the second life behaves like the first - callable, subscribers told
@@ -617,6 +620,7 @@ func secondLife() {
 	fx.Settle()
 	vrt.Observe("first=%d second=%d hooks=%d", first, second, impl.Terminated)
 }
+
 // twoSubscriptions: one connection follows two signals and the property of an
 // object; when the object is removed every one of its channels is closed;
 // also with far more unread events than a subscription queue holds.
